@@ -39,6 +39,13 @@ def faulty_plan(ctx):
     return out
 
 
+def deviant_plan(ctx):
+    """histories in which one peer holds the keys and misbehaves, or the two configurations differ (props/hdl.py):
+    the invariant is local to an endpoint and must hold at both (the deviant endpoint runs the real code too; only
+    the payloads it SENDS are rewritten)"""
+    return [(label, conf, acts) for label, acts, conf, seed, skip in hdl.deviant_set(not ctx.quick(), ctx.seed)]
+
+
 def run(ctx, runs, record=True):
     """Execute; after every action compare SAD with tracked (oracle) and collect per-event op lists (cases)."""
     fails, cases, meta = [], [], []
@@ -104,9 +111,10 @@ def run(ctx, runs, record=True):
 def correspond(ctx):
     f1, cases, meta = run(ctx, plan(ctx))
     f2, cases2, meta2 = run(ctx, faulty_plan(ctx))
-    ctx.oracle_fails = f1 + f2
-    cases += cases2
-    meta += meta2
+    f3, cases3, meta3 = run(ctx, deviant_plan(ctx))
+    ctx.oracle_fails = f1 + f2 + f3
+    cases += cases2 + cases3
+    meta += meta2 + meta3
     bad = core.run_cases(ctx, sc.CLUSTER, 'From IkeSa Require Import SadRun.', 'run_sad', cases, shard=400, name='sad')
     fails = []
     for gi, model_out in bad[:6]:
@@ -124,7 +132,8 @@ def oracle(ctx, deep):
         return ctx.oracle_fails
     f1, _, _ = run(ctx, plan(ctx))
     f2, _, _ = run(ctx, faulty_plan(ctx))
-    return f1 + f2
+    f3, _, _ = run(ctx, deviant_plan(ctx))
+    return f1 + f2 + f3
 
 
 def regressions(ctx):
